@@ -30,7 +30,7 @@ fn seqx_run_type<V: Val>(property: &str, thorough: bool, shard: (usize, usize), 
             "CONFIG",
             J::obj()
                 .set("config", spec.to_json())
-                .set("label", spec.cfg.label())
+                .set("label", match spec.tick_ns { Some(t) if t == seqx::NS && spec.cfg.flavour == common::Flavour::Async => format!("{}/tick=1s", spec.cfg.label()), _ => spec.cfg.label() })
                 .set("states", r.states)
                 .set("transitions", r.transitions)
                 .set("depth_completed", r.depth_completed)
@@ -63,7 +63,13 @@ fn seqx_main(args: &Args) -> i32 {
         seqx_run_type::<Option<String>>(&property, thorough, shard, &mut counter, state_cap);
         seqx_run_type::<(u32, String, Box<String>)>(&property, thorough, shard, &mut counter, state_cap);
         seqx_run_type::<(u8, u8, String)>(&property, thorough, shard, &mut counter, state_cap);
+        // a user type reporting its own figure, and a heap-allocated container of heap-owning elements
+        seqx_run_type::<crate::vals::UserBlob>(&property, thorough, shard, &mut counter, state_cap);
+        seqx_run_type::<Box<Vec<String>>>(&property, thorough, shard, &mut counter, state_cap);
         if thorough {
+            seqx_run_type::<Option<(String, Vec<u8>)>>(&property, thorough, shard, &mut counter, state_cap);
+            seqx_run_type::<Result<Vec<u8>, String>>(&property, thorough, shard, &mut counter, state_cap);
+            seqx_run_type::<Vec<Box<String>>>(&property, thorough, shard, &mut counter, state_cap);
             seqx_run_type::<Vec<u8>>(&property, thorough, shard, &mut counter, state_cap);
             seqx_run_type::<Result<String, String>>(&property, thorough, shard, &mut counter, state_cap);
             seqx_run_type::<(String, Vec<u8>)>(&property, thorough, shard, &mut counter, state_cap);
@@ -166,6 +172,11 @@ fn seqx_replay(path: &str, property: &str) -> i32 {
         "(String,Vec<u8>)" => seqx_replay_typed::<(String, Vec<u8>)>(spec, &hist, property),
         "Box<String>" => seqx_replay_typed::<Box<String>>(spec, &hist, property),
         "Vec<(String,u8)>" => seqx_replay_typed::<Vec<(String, u8)>>(spec, &hist, property),
+        "UserBlob" => seqx_replay_typed::<crate::vals::UserBlob>(spec, &hist, property),
+        "Box<Vec<String>>" => seqx_replay_typed::<Box<Vec<String>>>(spec, &hist, property),
+        "Option<(String,Vec<u8>)>" => seqx_replay_typed::<Option<(String, Vec<u8>)>>(spec, &hist, property),
+        "Result<Vec<u8>,String>" => seqx_replay_typed::<Result<Vec<u8>, String>>(spec, &hist, property),
+        "Vec<Box<String>>" => seqx_replay_typed::<Vec<Box<String>>>(spec, &hist, property),
         "(String,String,String)" => seqx_replay_typed::<(String, String, String)>(spec, &hist, property),
         "Vec<Option<String>>" => seqx_replay_typed::<Vec<Option<String>>>(spec, &hist, property),
         "Option<Vec<u8>>" => seqx_replay_typed::<Option<Vec<u8>>>(spec, &hist, property),
